@@ -11,6 +11,7 @@ import (
 	openfgav1 "github.com/openfga/api/proto/openfga/v1"
 
 	"github.com/openfga/openfga/internal/verifhook"
+	"github.com/openfga/openfga/pkg/storage/memory"
 )
 
 // ---------------------------------------------------------------- hook tracer
@@ -176,7 +177,17 @@ func C08(run *Run) {
 		return
 	}
 	r := rand.New(rand.NewSource(run.Seed))
-	v := NewVariants()
+	// reads complete after small pseudo-random delays, so that the order in which
+	// concurrent sub-problems finish (and what gets cached first) varies between passes
+	jr := rand.New(rand.NewSource(run.Seed + 7))
+	ds := NewCancelDS(memory.New())
+	ds.Jitter = func() time.Duration {
+		if jr.Intn(3) == 0 {
+			return time.Duration(jr.Intn(300)) * time.Microsecond
+		}
+		return 0
+	}
+	v := NewVariantsDS(ds)
 	defer v.Close()
 	nCases := run.Pick(60, 1200)
 	rec := &Recorder{}
@@ -184,14 +195,34 @@ func C08(run *Run) {
 	srvEngines := []string{"server:qc", "server:v2:qc"}
 	for c := 0; c < nCases; c++ {
 		cs, _ := GenCase(r, c, GenOpts{MinTuples: 10, MaxTuples: 20})
-		if err := v.Base.Setup(ctx, cs.Model, cs.Tuples); err != nil {
+		// part of the tuples travel as contextual tuples of some requests: the same sub-problem
+		// is then asked with different contextual tuples within one cache lifetime
+		stored, ctxt := splitTuples(r, cs)
+		if len(ctxt) > 3 {
+			stored = append(stored, ctxt[3:]...)
+			ctxt = ctxt[:3]
+		}
+		if err := v.Base.Setup(ctx, cs.Model, stored); err != nil {
 			run.Inconclusive("setup failed: %v", err)
 		}
 		ts, mg, err := v.Base.Typesystem(ctx, cs.Model)
 		if err != nil {
 			run.Inconclusive("typesystem: %v", err)
 		}
-		rec.Setup(cs.SetupEv())
+		se := cs.SetupEv()
+		se.Tuples = normTuples(stored)
+		rec.Setup(se)
+		ctOf := func(i int) []Tuple {
+			switch i % 3 {
+			case 1:
+				return ctxt
+			case 2:
+				if len(ctxt) > 1 {
+					return ctxt[:1]
+				}
+			}
+			return nil
+		}
 		// requests with overlapping sub-problems: few subjects, all relations of two objects
 		reqs := GenRequests(r, cs, 60)
 		subj := reqs[0].U
@@ -222,12 +253,13 @@ func C08(run *Run) {
 				v.Base.caseCache.Stop()
 				v.Base.caseCache = nil
 			}
-			for pass := 0; pass < 3; pass++ {
-				for _, q := range order(pass) {
-					ev := &CheckEv{Eng: eng, O: q.O, R: q.R, U: q.U, Ctx: q.Ctx}
+			for pass := 0; pass < 4; pass++ {
+				for qi, q := range order(pass) {
+					ct := ctOf(qi + pass)
+					ev := &CheckEv{Eng: eng, O: q.O, R: q.R, U: q.U, Ctx: q.Ctx, Ctxt: ct}
 					if strings.HasPrefix(eng, "server:v2") || strings.HasPrefix(eng, "v2c") {
 						// the v2 engine is judged as in C03 (userset/wildcard subjects against v1)
-						v1 := &CheckEv{Eng: "v1:default", O: q.O, R: q.R, U: q.U, Ctx: q.Ctx}
+						v1 := &CheckEv{Eng: "v1:default", O: q.O, R: q.R, U: q.U, Ctx: q.Ctx, Ctxt: ct}
 						v.Base.RunCheck(ctx, v1, ts, mg)
 						vev := &V2Ev{CheckEv: *ev}
 						env.RunCheck(ctx, &vev.CheckEv, ts, mg)
@@ -393,8 +425,8 @@ func C11(run *Run) {
 	defer verifhook.InstallTracer(nil)
 	v := NewVariants()
 	defer v.Close()
-	combos := []string{"server:qc:cc", "server:ic:lic:cc"}
-	nCases := run.Pick(16, 200)
+	combos := []string{"server:qc:cc", "server:ic:lic:cc", "server:ic:lic:cc:t300"}
+	nCases := run.Pick(18, 210)
 	rec := &Recorder{}
 	waits, notRun := 0, 0
 	for c := 0; c < nCases; c++ {
@@ -458,6 +490,21 @@ func C11(run *Run) {
 					if len(d)+len(w) > 0 {
 						rec.Add(wev)
 					}
+				}
+			}
+			if strings.Contains(combo, "t300") {
+				// push every earlier change out of the 300 ms iterator-cache TTL window, re-warm the
+				// caches, then make two separate in-window changes: the changelog page then straddles
+				// the window and the controller takes its partial-invalidation path
+				time.Sleep(350 * time.Millisecond)
+				ask("ok")
+				d, w := flipWrite(r, cs, cur, pool)
+				if len(d)+len(w) > 0 {
+					wev, err := env.apiWriteEv(ctx, d, w)
+					if err != nil {
+						run.Inconclusive("write refused: %v", err)
+					}
+					rec.Add(wev)
 				}
 			}
 			dels, wrs = flipWrite(r, cs, cur, pool)
